@@ -2,11 +2,15 @@ SPECIFICATION Spec
 CONSTANTS
     Impl = "ref"
     Kind = "sn"
+    Half = "modes"
+    Temps = {1000}
     MaxBn = 1
     TrackHist = FALSE
     MaxLen = 0
 INVARIANT TypeOK
 INVARIANT ModesAgree
 INVARIANT NoNewKeys
+INVARIANT SamplerConsistent
 PROPERTY ObserversNeutral
 PROPERTY SetterFrame
+PROPERTY OptionFrame
